@@ -75,6 +75,10 @@ def prepare(prop, tier, cfg, keep=False):
             cmd.append('./' + world['pkg'])
             sh(cmd, cwd=src, env=env, timeout=1800)
             ctx['binaries'][name] = out
+        post = world.get('post_build_hook')
+        if post:
+            import hooks
+            getattr(hooks, post)(ctx, prop, tier, cfg, world)
         log('[prep %s] %.1fs' % (prop, time.time() - t0))
         return ctx
     except BaseException:
